@@ -461,7 +461,7 @@ class Unit:
     def take_fn(self, sf, path, contract="", ret="r", pre_body="", loops=None, loop_attrs=None, hints=(),
                 e9=(), ghost=None, ghost_calls=(), loop_ends=None, external_body=False, keep_attrs=(), make_pub=True,
                 rename=None, drop_body=False, e10=True, extra_attrs="", under_contract=True, sig_edits=(),
-                lift_closures=(), loop_iter_names=None):
+                lift_closures=(), loop_iter_names=None, desugar_for=None):
         """Extract one function verbatim and splice contract text into it.
         contract   : text placed between signature and body (requires/ensures/decreases)
         ret        : name given to the return value ('-> T' becomes '-> (r: T)')
@@ -537,7 +537,24 @@ class Unit:
                 ins = e10_lets + (("\n" + pre_body.rstrip() + "\n") if pre_body.strip() else "")
                 if ins:
                     edits.append((lo, lo, ins, "contract" if not e10_lets else "rule", "E7"))
+                for k, nm in (desugar_for or {}).items():
+                    # E12: `for P in E BODY` -> rustc's own desugaring, needed because this Verus rejects `continue`
+                    # inside `for`:  { let mut NAME = IntoIterator::into_iter(E); loop INV { match NAME.next() {
+                    #                  None => { break; } Some(P) => BODY } } }
+                    if k >= len(it["loops"]) or it["loops"][k]["kind"] != "for":
+                        raise Undecided("%s: loop ordinal %d is not a for loop" % (path, k))
+                    L = it["loops"][k]
+                    inv = (loops or {}).get(k, "")
+                    ptxt = sf.s(L["pat"][0], L["pat"][1])
+                    edits.append((L["span"][0], L["pat"][0], "{ let mut %s = IntoIterator::into_iter(" % nm, "rule", "E12"))
+                    edits.append((L["pat"][0], L["expr"][0], "", "rule", "E12"))
+                    edits.append((L["expr"][1], L["body"][0], "); loop\n" + inv.rstrip() + "\n{ match %s.next() { None => { break; } Some(%s) => " % (nm, ptxt), "rule", "E12"))
+                    edits.append((L["body"][1], L["body"][1], " } } }", "rule", "E12"))
+                    self.rule("E12", "%s: for loop #%d desugared (iterator %s) [%s:%d]" % (path, k, nm, sf.rel, sf.line_of(L["span"][0])))
+                    applied.append("E12")
                 for k, inv in (loops or {}).items():
+                    if k in (desugar_for or {}):
+                        continue
                     if k >= len(it["loops"]):
                         raise Undecided("%s: loop ordinal %d not found (has %d loops)" % (path, k, len(it["loops"])))
                     lb = it["loops"][k]["body"][0]
